@@ -471,7 +471,7 @@ def gen_history(rng, shots_variant=False):
     return dict(n=n, free=free, segs=segs, build=build, shots=3 if shots_variant else 1,
                 run=rng.choice(["list", "successive"]) if build == "before" and not shots_variant else "successive",
                 decoy=rng.random() < 0.5, rerun=rng.choice([None, None, "fresh", "reset"]) if build == "before" else None,
-                premature=build == "before" and rng.random() < 0.35)
+                premature=build == "before" and rng.random() < 0.35, suffix=rng.random() < 0.4)
 
 
 def history_reference(sf, h):
@@ -574,6 +574,16 @@ def history_real(sf, h):
     eng = sf.Engine(backend)
     err = attempt(eng, backend)
     tr = _trace(backend)
+    suffix = None
+    if h.get("suffix") and err is None and len(h["segs"]) > 1 and h["shots"] == 1:
+        # the last segment alone on a fresh engine: its Program's RegRefs still hold the outcomes of the full run
+        b3 = px.make_backend(_outcomes(h, h["segs"][-1:]))
+        try:
+            sf.Engine(b3).run(progs[-1], args=dict(h["free"]))
+            e3 = None
+        except PE:
+            e3 = "ParameterError"
+        suffix = (_trace(b3), e3)
     if h.get("rerun") and h["build"] == "before":
         # the same programs again: their RegRefs still hold the values of the first run
         if h["rerun"] == "fresh":
@@ -586,11 +596,20 @@ def history_real(sf, h):
             backend2, eng2 = backend, eng
         err2 = attempt(eng2, backend2)
         tr2 = _trace(backend2)
-        return tr, err, (tr2, err2)
-    return tr, err, None
+        return tr, err, (tr2, err2), suffix
+    return tr, err, None, suffix
 
 
-def history_model_req(sf, h):
+def final_latest(h):
+    latest = {}
+    for cmds in h["segs"]:
+        for c in cmds:
+            if c["k"] == "measure":
+                latest.update(dict(zip(c["modes"], c["vals"])))
+    return latest
+
+
+def history_model_req(sf, h, own0=None):
     segs = []
     sc = {}
     for cmds in h["segs"]:
@@ -607,7 +626,7 @@ def history_model_req(sf, h):
                 ms.append({"use": {"neg": e} if c["dagger"] else e})
         segs.append(ms)
     return {"op": "param.engine", "free": [[k, rat(v)] for k, v in h["free"].items()], "segs": segs,
-            "query": list(range(h["n"]))}
+            "query": list(range(h["n"])), "own0": [[m, rat(v)] for m, v in (own0 or {}).items()]}
 
 
 def history_one(ctx, sf, h, reqs, pend):
@@ -617,7 +636,7 @@ def history_one(ctx, sf, h, reqs, pend):
                       for cmds in h["segs"] for c in cmds if c["k"] == "use")
     ctx.count("history_%dseg_%s_%s" % (len(h["segs"]), h["build"], h["run"]), h, True, sample=h)
     try:
-        tr, err, again = history_real(sf, h)
+        tr, err, again, suffix = history_real(sf, h)
     except Exception as e:
         ctx.oracle_cases += 1
         ctx.fail("history-crash", f"running the segments raises {type(e).__name__}: {str(e)[:200]} "
@@ -626,7 +645,7 @@ def history_one(ctx, sf, h, reqs, pend):
     ctx.oracle_cases += 1
     ctx.tally("history_err_expected" if ref_err else "history_ok_expected")
 
-    def judge(tr, err, label):
+    def judge(tr, err, label, ref_tr=ref_tr, ref_err=ref_err):
         if ref_err and err is None:
             ctx.fail("measured-parameter-used-before-measurement" + label,
                      f"expected ParameterError ({ref_err}) but the run completed; applied values {tr}", rp)
@@ -643,9 +662,16 @@ def history_one(ctx, sf, h, reqs, pend):
     ok = judge(tr, err, "")
     if ok and again is not None:
         judge(again[0], again[1], "-on-rerun")
+    if ok and suffix is not None:
+        s_tr, s_err = history_reference(sf, dict(h, segs=h["segs"][-1:]))
+        judge(suffix[0], suffix[1], "-last-segment-on-fresh-engine", s_tr, s_err)
     if ctx.proof_ok and h["shots"] == 1:
         reqs.append(history_model_req(sf, h))
         pend.append(("history", h, dict(trace=tr, err=err, cond=conditioned)))
+        if suffix is not None:
+            # the model follows the code here: the first Program of a computation runs with what its RegRefs hold
+            reqs.append(history_model_req(sf, dict(h, segs=h["segs"][-1:]), own0=final_latest(h)))
+            pend.append(("history", dict(h, suffix_only=True), dict(trace=suffix[0], err=suffix[1], cond=conditioned)))
 
 
 def history_compare(ctx, h, got, model):
